@@ -65,6 +65,29 @@ class _NNF(ast.NodeTransformer):
         return push(node)
 
 
+MIRROR = {ast.Lt: ast.Gt, ast.Gt: ast.Lt, ast.LtE: ast.GtE, ast.GtE: ast.LtE,
+          ast.Eq: ast.Eq, ast.NotEq: ast.NotEq, ast.Is: ast.Is,
+          ast.IsNot: ast.IsNot}
+
+
+def _is_const(e):
+    return isinstance(e, ast.Constant) or (
+        isinstance(e, ast.UnaryOp) and isinstance(e.operand, ast.Constant)) \
+        or (isinstance(e, ast.Name) and e.id in ('None', 'True', 'False'))
+
+
+class _ConstRight(ast.NodeTransformer):
+    """``0 < len(x)`` is ``len(x) > 0``; ``None is x`` is ``x is None``."""
+
+    def visit_Compare(self, node):
+        self.generic_visit(node)
+        if len(node.ops) == 1 and type(node.ops[0]) in MIRROR and \
+                _is_const(node.left) and not _is_const(node.comparators[0]):
+            node.left, node.comparators[0] = node.comparators[0], node.left
+            node.ops = [MIRROR[type(node.ops[0])]()]
+        return node
+
+
 class _MergeIfs(ast.NodeTransformer):
     """``if A: if B: S`` (no else on either, nothing else in the outer body)
     is ``if A and B: S``."""
@@ -141,6 +164,7 @@ def _sink_returns(fn):
 
 
 def normalise(tree):
+    _ConstRight().visit(tree)
     _NNF().visit(tree)
     _MergeIfs().visit(tree)
     for n in ast.walk(tree):
